@@ -719,10 +719,12 @@ def nontrivial(seq):
     return False
 
 
-def oracle(run: Run, thorough: bool, budget_s: float):
-    n = 600 if thorough else 36
-    seqs = list(DIRECTED) + [gen_sequence(run.rng("seq", i)) for i in range(n)]
-    results = run_workers(run, seqs, 10 if thorough else 7, budget_s)
+def oracle_sequences(run: Run, thorough: bool):
+    n = 600 if thorough else 48
+    return list(DIRECTED) + [gen_sequence(run.rng("seq", i)) for i in range(n)]
+
+
+def oracle_merge(run: Run, seqs, results):
     done = skipped = 0
     for i, seq in enumerate(seqs):
         r = results.get(i)
@@ -752,6 +754,10 @@ def oracle(run: Run, thorough: bool, budget_s: float):
 
 TIE_HEADER = ("From Coq Require Import List Arith Bool. Import ListNotations.\n"
               "From Leaspy Require Import Api.ApiModel Api.ApiInst Api.ApiTie Api.ApiCalls Api.ApiCallsTie.\n")
+
+
+# compute_individual_trajectory per kind: (data variables assigned after "t", variables read at the end)
+ESTIMATE_SHAPE = {"*": ([], ["model"]), "joint": (["event"], ["model", "predictions_event"])}
 
 
 class EncodeError(Exception):
@@ -860,13 +866,16 @@ def trace_tie(run: Run, thorough: bool):
                 # ---- estimate
                 op = dict(op="estimate", form="dict", n=2, seed=3)
                 ev, res = record_call(model, op, kind)
+                tp, ip = make_estimate_input(kind, op, model)      # the call's inputs decide the model script
+                extra, outs = ESTIMATE_SHAPE.get(kind, ESTIMATE_SHAPE["*"])
+                reqs = coq_list([coq_nats([var_ix[n] for n in extra + list(ip[i].keys())]) for i in tp])
                 try:
                     t = encode_call(ev, var_ix)
                 except EncodeError as e:
-                    run.fail("trace:estimate:foreign-state", str(e), dict(kind=kind, ops=[op], history=hist))
+                    tie_broken(run, "estimate", "foreign-state", str(e), dict(kind=kind, ops=[op], history=hist))
                     t = None
                 if t is not None:
-                    cases["estimate"].append(f"({anc_l}, {coq_nats(kept)}, {var_ix['t']}, {var_ix['model']}, {shape}, {coq_trace(t)})")
+                    cases["estimate"].append(f"({anc_l}, {coq_nats(kept)}, {var_ix['t']}, {coq_nats([var_ix[n] for n in outs])}, {reqs}, {shape}, {coq_trace(t)})")
                     meta["estimate"].append(dict(kind=kind, history=hist, op=op, trace=t))
                 # ---- simulate (logistic only: the algorithm refuses the other kinds)
                 if kind == "logistic":
@@ -875,10 +884,10 @@ def trace_tie(run: Run, thorough: bool):
                         ev, res = record_call(model, op, kind)
                         try:
                             t = encode_call(ev, var_ix)
-                            cases["simulate"].append(f"({anc_l}, {coq_nats(kept)}, {coq_trace(t)})")
+                            cases["simulate"].append(f"({anc_l}, {coq_nats(kept)}, {shape}, {coq_trace(t)})")
                             meta["simulate"].append(dict(kind=kind, history=hist, op=op, trace=t))
                         except EncodeError as e:
-                            run.fail("trace:simulate:foreign-state", str(e), dict(kind=kind, ops=[op], history=hist))
+                            tie_broken(run, "simulate", "foreign-state", str(e), dict(kind=kind, ops=[op], history=hist))
                 # ---- scipy_minimize (on a deep copy when the object is to be re-used with its history)
                 op = {"op": "personalize", "algo": "scipy_minimize", "cohort": 2, "ids": [0, 3], "as": "data", "seed": 5}
                 ev, res = record_call(model, op, kind)
@@ -889,29 +898,30 @@ def trace_tie(run: Run, thorough: bool):
                         meta["scipy"].append(dict(kind=kind, history=hist, op=op, trace=t,
                                                   ind_set=all(model.state._values[n] is not None for n in names if var_ix[n] in ivars)))
                     except EncodeError as e:
-                        run.fail("trace:scipy_minimize:foreign-state", str(e), dict(kind=kind, ops=[op], history=hist))
+                        tie_broken(run, "scipy", "foreign-state", str(e), dict(kind=kind, ops=[op], history=hist))
                 else:
                     run.count("trace_skipped", f"scipy_minimize raises on {kind} {hist} ({res[1]})")
             # ---- MCMC personalisation last (it replaces the state): on both objects
             for hist, model in (("after-fit", fitted), ("after-load", loaded)):
                 for algo in MCMC if (thorough or kind == "logistic") else MCMC[:1]:
                     op = {"op": "personalize", "algo": algo, "cohort": 2, "ids": [0, 1, 3], "as": "data", "seed": 5, "n_iter": 4}
+                    shape = coq_list(["Some tt" if model.state._values[n] is not None else "None" for n in names])
                     ev, res = record_call(model, op, kind)
                     if isinstance(res, tuple) and res and res[0] == "exc":
                         run.count("trace_skipped", f"{algo} raises on {kind} {hist} ({res[1]})")
                         continue
                     try:
                         t = encode_call(ev, var_ix)
-                        cases["mcmc"].append(f"({anc_l}, {coq_nats(kept)}, {coq_nats(dvars)}, {coq_nats(ivars)}, {coq_trace(t)})")
+                        cases["mcmc"].append(f"({anc_l}, {coq_nats(kept)}, {coq_nats(dvars)}, {coq_nats(ivars)}, {shape}, {coq_trace(t)})")
                         meta["mcmc"].append(dict(kind=kind, history=hist, op=op, trace=t))
                     except EncodeError as e:
-                        run.fail(f"trace:{algo}:foreign-state", str(e), dict(kind=kind, ops=[op], history=hist))
+                        tie_broken(run, "mcmc", "foreign-state", str(e), dict(kind=kind, ops=[op], history=hist))
     finally:
         shutil.rmtree(wd, ignore_errors=True)
 
-    checks = [("estimate", "list (list nat) * list nat * nat * nat * list (option unit) * list rop", "check_estimate_call"),
-              ("simulate", "list (list nat) * list nat * list rop", "check_simulate_call"),
-              ("mcmc", "list (list nat) * list nat * list nat * list nat * list rop", "check_mcmc_call"),
+    checks = [("estimate", "list (list nat) * list nat * nat * list nat * list (list nat) * list (option unit) * list rop", "check_estimate_call"),
+              ("simulate", "list (list nat) * list nat * list (option unit) * list rop", "check_simulate_call"),
+              ("mcmc", "list (list nat) * list nat * list nat * list nat * list (option unit) * list rop", "check_mcmc_call"),
               ("scipy", "list (list nat) * list nat * list nat * list nat * list (option unit) * nat * list rop", "check_scipy_call")]
     for name, ty, chk in checks:
         if not cases[name]:
@@ -924,8 +934,8 @@ def trace_tie(run: Run, thorough: bool):
         for i in bad or []:
             m = meta[name][i]
             why = explain(name, m)
-            run.fail(f"trace:{name}:{why[0]}", f"recorded {name} call on a {m['kind']} model ({m['history']}) is not the model's script: {why[1]}",
-                     dict(kind=m["kind"], history=m["history"], ops=[m["op"]]), observed=why[1])
+            tie_broken(run, name, why[0], f"recorded {name} call on a {m['kind']} model ({m['history']}) is not the model's script: {why[1]}",
+                       dict(kind=m["kind"], history=m["history"], ops=[m["op"]]))
     # scipy_minimize: the flow check (hypothesis of C13_history_independent) on the recorded trace.  It is EXPECTED to pass when
     # the property holds; in the faithful model it does not (C13_scipy_start_refuted): the call reads the set/unset status and
     # the values of the individual variables of a clone of model.state before assigning them.
@@ -934,12 +944,14 @@ def trace_tie(run: Run, thorough: bool):
         bad = run.vm_bad_indices("tie_scipy_flow", TIE_HEADER,
                                  "list (list nat) * list nat * list nat * list nat * list (option unit) * nat * list rop", flow_cases,
                                  "check_scipy_flow")
-        run.extra["scipy_flow_check_rejected"] = len(bad or [])
-        for i in bad or []:
-            m = meta["scipy"][i]
-            run.fail(F6_SIG, "recorded scipy_minimize call reads the individual latent variables (their set/unset status, then their "
-                     "values as start point) of a clone of model.state before assigning them: flow check of C13_history_independent "
-                     "rejects the trace", dict(kind=m["kind"], history=m["history"], ops=[m["op"]]), kind="counterexample")
+        # the flow check is SUFFICIENT for history independence, not necessary: a rejection is reported as the finding only
+        # together with a concrete reproduction on the code (oracle, same signature); alone it is recorded in the evidence
+        run.extra["scipy_flow_check"] = dict(traces=len(flow_cases), rejected=len(bad or []),
+                                             rejected_on=[f"{meta['scipy'][i]['kind']}:{meta['scipy'][i]['history']}" for i in bad or []],
+                                             note="C13_history_independent's hypothesis evaluated on the recorded call; expected to be "
+                                                  "rejected as long as finding F6 stands (C13_scipy_start_refuted)")
+        run.extra["_scipy_flow_rejected"] = [dict(kind=meta["scipy"][i]["kind"], history=meta["scipy"][i]["history"], ops=[meta["scipy"][i]["op"]])
+                                             for i in bad or []]
     if meta["estimate"]:
         m = meta["estimate"][0]
         run.sample(dict(kind="trace", call="estimate", model=m["kind"], history=m["history"], recorded=m["trace"][:14]))
@@ -947,6 +959,12 @@ def trace_tie(run: Run, thorough: bool):
         m = meta["mcmc"][0]
         run.sample(dict(kind="trace", call=m["op"]["algo"], model=m["kind"], history=m["history"], recorded_head=m["trace"][:16],
                         recorded_tail=m["trace"][-12:], length=len(m["trace"])))
+
+
+def tie_broken(run, call, why, detail, inp):
+    """A recorded call that does not have the shape the theorems are about: the correspondence is broken (the sequence oracle
+    decides whether there is a failing input)."""
+    run.broken(f"trace:{call}:{why}", detail + "\ninput: " + json.dumps(inp), kind="broken-correspondence")
 
 
 KINDS_TXT = {0: "get", 1: "set", 2: "unset", 3: "clone", 4: "save", 5: "revert", 6: "rng-draw", 7: "rng-seed", 8: "model.state :=", 9: "is_set"}
@@ -1005,8 +1023,9 @@ def main(run: Run):
                     "harness/props/c13.py canon(): bit-exact canonical form of tensors, arrays, tables and objects"]
     # the implementation-side search runs in sub-processes while this process proves and records traces
     import threading
-    box = {}
-    th = threading.Thread(target=lambda: box.update(done=oracle(run, thorough, 1500 if thorough else 120)))
+    seqs = oracle_sequences(run, thorough)
+    box, side = {}, Run("C13", run.tier, run.seed)       # the thread only collects; everything is merged in this thread
+    th = threading.Thread(target=lambda: box.update(results=run_workers(side, seqs, 10 if thorough else 7, 1500 if thorough else 110)))
     th.start()
     try:
         run.prove("C13", OBLIGATIONS)
@@ -1016,6 +1035,14 @@ def main(run: Run):
     finally:
         th.join()
         shutil.rmtree(SCRATCH, ignore_errors=True)
+    run._broken += side._broken
+    oracle_merge(run, seqs, box.get("results", {}))
+    rejected = run.extra.pop("_scipy_flow_rejected", [])
+    if rejected and F6_SIG in run._known_hit or any(f["signature"] == F6_SIG for f in run._fails):
+        for inp in rejected:
+            run.fail(F6_SIG, "recorded scipy_minimize call reads the individual latent variables of a clone of model.state (their set/unset "
+                     "status, then their values as start point) before assigning them: the flow check of C13_history_independent rejects "
+                     "the trace", inp)
     run.extra["wall_main_s"] = round(time.time() - t0, 1)
     return run.finish()
 
